@@ -292,6 +292,8 @@ func checkWholeText(p *Prog, l *Ledger, rule string) {
 		return
 	}
 	reWhole := regexp.MustCompile(`^(conv:\[\]rune\()?conv:string\((io[^ ()]*)#0\)\)?$`)
+	// … or everything read from the opened file: io.ReadAll(os.Open(path))
+	reAll := regexp.MustCompile(`^(conv:\[\]rune\()?conv:string\(ReadAll\((io[^ ()]*)#0\)#0\)\)?$`)
 	n := 0
 	var bad []string
 	pos := ""
@@ -307,6 +309,14 @@ func checkWholeText(p *Prog, l *Ledger, rule string) {
 			n++
 			pos = e.Pos
 			mm := reWhole.FindStringSubmatch(e.Args[1])
+			if ma := reAll.FindStringSubmatch(normName(e.Args[1])); mm == nil && ma != nil {
+				for res, fn := range reads {
+					if normName(res) == ma[2] && fn == "os.Open" {
+						mm = []string{"", "", res}
+						reads[res] = "io.ReadAll"
+					}
+				}
+			}
 			switch {
 			case mm == nil:
 				bad = append(bad, "run() is given "+e.Args[1]+", not the file's content converted in one piece")
